@@ -17,6 +17,8 @@ def run(sc, tier, seed):
     # design level: Parse(Format(t)) = t, Unmarshal(Marshal(t)) = t, FormatIdempotentAfterOne, ... for all trees
     cfg = "TickExpr_quick.cfg" if tier == "quick" else "TickExpr_thorough.cfg"
     R.add_model(V.model_check(sc, "TickExpr", "TickExprMC.tla", cfg, workers=4 if tier == "quick" else 8, timeout=1500))
+    # token values with line ends / control characters inside and look-alike strings ('1m' vs 1m): byte for byte, kind kept
+    R.add_model(V.model_check(sc, "TickExpr", "TickExprMC.tla", "TickExpr_ctl.cfg", workers=2, timeout=600))
     # observations: the two original behaviours (repaired in /repo, see KNOWN_FINDINGS.txt) are the expected counterexamples
     V.model_check(sc, "TickExpr", "TickExprMC.tla", "TickExpr_orig_json.cfg", workers=2, timeout=600,
                   expect_violation={"JsonIdentity"})
